@@ -817,8 +817,28 @@ def transpose(a):
     return array(a).T
 
 
-def arange(*args):
-    return array(list(range(*[operator.index(x) for x in args])))
+def arange(*args, dtype=None):
+    vals = list(range(*[operator.index(x) for x in args]))
+    if dtype is not None:
+        dt = _np.dtype(_real_dtype(dtype))
+        if dt.kind in "iu":
+            # fixed-width integer arrays wrap around silently
+            bits = dt.itemsize * 8
+            lo = 0 if dt.kind == "u" else -(1 << (bits - 1))
+            vals = [((v - lo) % (1 << bits)) + lo for v in vals]
+        elif dt.kind == "f":
+            vals = [float(v) for v in vals]
+        else:
+            raise ShimUnsupported(f"arange(dtype={dtype!r})")
+    return array(vals)
+
+
+def _real_dtype(t):
+    if getattr(t, "_is_sym_float", False):
+        return float
+    if getattr(t, "_is_sym_int", False):
+        return int
+    return t
 
 
 def flatnonzero(a):
@@ -986,6 +1006,36 @@ class _Random:
 random = _Random()
 testing = _np.testing
 typing = getattr(_np, "typing", None)
+
+
+def _guard_signatures():
+    """a call that does not fit the stand-in's signature (a numpy keyword the stand-in does not know) is an unmodelled feature:
+    the path is inconclusive - never a TypeError that could pass for a rejection by the code under test"""
+    import functools
+    import inspect
+    import types
+
+    g = globals()
+    for name, f in list(g.items()):
+        if name.startswith("_") or not isinstance(f, types.FunctionType) or f.__module__ != __name__:
+            continue
+        sig = inspect.signature(f)
+
+        def mk(f, sig, name):
+            @functools.wraps(f)
+            def w(*a, **k):
+                try:
+                    sig.bind(*a, **k)
+                except TypeError as ex:
+                    raise ShimUnsupported(f"numpy.{name}: {ex}") from None
+                return f(*a, **k)
+
+            return w
+
+        g[name] = mk(f, sig, name)
+
+
+_guard_signatures()
 
 
 def __getattr__(name):
